@@ -63,6 +63,7 @@ def build(repo, findings):
     g.resub(r'\bcmd_output\.retain\(\|c\| c != \'\\0\'\)', 'string_retain_not_nul(&mut cmd_output)', 'R14', 'String::retain(closure) -> stub', count=None)
     g.resub(r"\bcmd_output\.trim_end_matches\('(\\?.)'\)\.len\(\)", r"trimmed_len_of(&cmd_output, &['\1'])", 'R19', "trim_end_matches(char).len() -> stub (byte length without the trailing run)", count=None)
     g.resub(r"\bcmd_output\.trim_end_matches\((\[[^\]]*\])\)\.len\(\)", r"trimmed_len_of(&cmd_output, &\1)", 'R19', "trim_end_matches([chars]).len() -> stub", count=None)
+    g.resub(r'\bcmd_output\.trim_end\(\)\.len\(\)', 'trimmed_len_ws(&cmd_output)', 'R19', 'trim_end().len() -> stub (byte length without the trailing whitespace run, std\'s notion of whitespace uninterpreted)', count=None)
     g.resub(r'\bcmd_output\.truncate\((\w+)\)', r'string_truncate(&mut cmd_output, \1)', 'R19', 'String::truncate -> stub with the char-boundary precondition', count=None)
     g.resub(r'!self_\.disable_command_substitutions', '!self_.disable_command_substitutions', 'R0', 'no-op', count=None)
     g.sig(fn, ret='res', ensures=[
@@ -89,7 +90,7 @@ def build(repo, findings):
     u.add(g)
     u.raw(FOOTER)
     u.assume('external_body', 'process_double_quoted_pieces is a stub (flag left as found, unsplittable pieces only — ASSUMED); expand_tilde_expression is a stub with an uninterpreted result; TildeExpr, Error opaque; vx_owned (R17)')
-    u.assume('uninterp', 'tilde_spec')
+    u.assume('uninterp', 'tilde_spec, std_whitespace')
     u.assume('axiom', 'String::to_string() returns an equal string')
     u.assume('stub', 'the other arms of expand_word_piece (parameter/arithmetic expansions, escape sequences), process_double_quoted_pieces and the conversion of pieces into glob patterns are NOT covered by this unit')
     u.expected_min_fns = 9
